@@ -163,6 +163,53 @@ fn test_sized(c: &Sized) -> TestResult {
     Ok(Outcome::new(true))
 }
 
+// ---------------------------------------------------------------------------------------------
+// every status code x every length of one header (any fixed-size staging of the status line
+// and the leading header has its boundary somewhere in this grid)
+
+#[derive(Clone, Debug, Serialize, Deserialize)]
+struct Lens {
+    code: u16,
+    /// name.len() + value.len() of the long header
+    len: u16,
+    /// number of short headers in front of it
+    pos: u8,
+    /// share of `len` that goes to the name, in quarters
+    split: u8,
+}
+
+fn test_lens(c: &Lens) -> TestResult {
+    let status = http::StatusCode::from_u16(c.code).expect("100..=999");
+    let nlen = usize::from(c.len) * usize::from(c.split % 5) / 4;
+    let name: Vec<u8> = (0..nlen).map(|i| b'A' + (i % 26) as u8).collect();
+    let value: Vec<u8> = (0..usize::from(c.len) - nlen).map(|i| b'a' + (i % 26) as u8).collect();
+    let mut headers: Vec<(Vec<u8>, Vec<u8>)> = (0..c.pos).map(|i| (vec![b'H', b'0' + i], vec![b'v'])).collect();
+    headers.push((name, value));
+    headers.push((b"X-Tail".to_vec(), b"t".to_vec()));
+    let exp = expected_headers(c.code, &headers);
+    let f = |w: &mut dyn std::io::Write| write_headers(w, status, headers.iter().map(|(n, v)| (&n[..], &v[..])));
+    let mut v: Vec<u8> = Vec::new();
+    match f(&mut v) {
+        Ok(n) => vensure!(v == exp && n == exp.len(), "c20-grammar", "write_headers({}, long header {}+{} bytes at position {}): {} bytes written, {n} reported, expected {} (first difference at {:?})", c.code, nlen, usize::from(c.len) - nlen, c.pos, v.len(), exp.len(), v.iter().zip(exp.iter()).position(|(a, b)| a != b)),
+        Err(e) => vfail!("c20-error", "write_headers({}, long header {}+{} bytes at position {}): writing into a Vec failed: {e}", c.code, nlen, usize::from(c.len) - nlen, c.pos),
+    }
+    let len = exp.len();
+    for cap in [len - 1, len] {
+        let mut buf = vec![0x55u8; cap];
+        let (res, written) = {
+            let mut w: &mut [u8] = &mut buf[..];
+            let r = f(&mut w);
+            (r, cap - w.len())
+        };
+        vensure!(written <= len && buf[..written] == exp[..written], "c20-grammar", "write_headers({}, header length {}): capacity {cap}: the {written} bytes written are not a prefix of the expected text", c.code, c.len);
+        match res {
+            Ok(n) => vensure!(cap >= len && n == len && written == len, "c20-short-success", "write_headers({}, header length {}): capacity {cap}: reported success ({n} bytes) but {len} bytes are needed", c.code, c.len),
+            Err(_) => vensure!(cap < len, "c20-error", "write_headers({}, header length {}): failed with a {cap}-byte destination although {len} bytes suffice", c.code, c.len),
+        }
+    }
+    Ok(Outcome::new(true).label_if(status.canonical_reason().is_none(), "custom-reason").label_if(c.pos > 0, "long-header-not-first"))
+}
+
 fn header_bytes(max: usize) -> BoxedStrategy<Vec<u8>> {
     prop_oneof![
         2 => "[A-Za-z][A-Za-z0-9-]{0,20}".prop_map(String::into_bytes),
@@ -247,6 +294,30 @@ pub fn property() -> Property {
                             k += 1;
                             if k % n == shard && !sink.check(Sized { total: t, redirect }) {
                                 return;
+                            }
+                        }
+                    }
+                }),
+            }),
+            Box::new(EnumSub::<Lens> {
+                name: "header_lengths",
+                rule: "every status code 100..=999 x one header of every total length 0..=520 (thorough: 0..=2100) as first header, name/value split in quarters rotating with the length, followed by a short header; plus, for every 7th code, the same header behind one or two short headers: exact bytes and count into a Vec, success at capacity len, failure with a prefix at len-1; distinct by construction",
+                exhaustive: Box::new(|_| true),
+                guard_each: false,
+                test: Box::new(test_lens),
+                body: Box::new(|t, shard, n, sink| {
+                    let max: u16 = if matches!(t, Tier::Thorough) { 2100 } else { 520 };
+                    let mut k = 0usize;
+                    for code in 100..=999u16 {
+                        for len in 0..=max {
+                            for pos in 0..3u8 {
+                                if pos > 0 && code % 7 != 0 {
+                                    continue;
+                                }
+                                k += 1;
+                                if k % n == shard && !sink.check(Lens { code, len, pos, split: (len % 5) as u8 }) {
+                                    return;
+                                }
                             }
                         }
                     }
